@@ -245,6 +245,10 @@ class ThreadWorld(World):
             op["b"] = r.choice([0.0, round(r.uniform(-1, 1), 3),
                                 [round(r.uniform(-1, 1), 3) for _ in range(3)]])
             op["alias"] = r.choice(["heis", "ising", "XY", "XXZ"])
+            if r.random() < 0.3:
+                # the operator built in row ranges (``ownership``), as the
+                # distributed solvers do: stacked, the pieces are the operator
+                op["own"] = sorted(round(r.random(), 3) for _ in range(r.choice([1, 2, 3])))
         elif fn == "ham_heis_2D":
             op["Lx"] = r.randrange(2, 4)
             op["Ly"] = r.randrange(2, 3)
@@ -596,6 +600,16 @@ class ThreadWorld(World):
         else:
             f = lambda **kw: qu.ham_XXZ(L, delta=j[2], jxy=j[0], cyclic=cyc, sparse=True, **kw)
         ref = f(parallel=False)
+        if op.get("own"):
+            D = 2 ** L
+            cuts = sorted({0, D, *(min(D, max(0, int(round(x * D)))) for x in op["own"])})
+            ranges = [(a, b) for a, b in zip(cuts[:-1], cuts[1:]) if b > a]
+            self.stats.probe("ownership_ranges", len(ranges))
+            self._threaded(
+                op, lambda: sp.vstack([f(parallel=True, nthreads=op["nt"], ownership=ab) for ab in ranges]),
+                [], [_dense(ref)], poison=False, exact=False, label="ham_" + alias + "_ownership",
+            )
+            return
         self._threaded(
             op, lambda: f(parallel=True, nthreads=op["nt"]), [], [_dense(ref)],
             poison=False, exact=False, label="ham_" + alias,
